@@ -14,7 +14,7 @@ after a terminator is unmapped.  Later segments are appended at columns >= the c
 processed holds for the finished line unless a later segment sits at the very same generated column (zero width)."""
 import z3
 
-from vf.pyvc.dsl import Contract, Loop, Int, Bool, Helper, SInt, SBool, PList
+from vf.pyvc.dsl import Contract, Loop, Int, Bool, Helper, SInt, SBool, PList, PExt, Opaque
 from vf.pyvc.engine import PAbsSeq, FoldSpec, FoldAbs
 
 MODULE = 'calmjs.parse.sourcemap'
@@ -101,4 +101,57 @@ if len(segment) == 1:
                  "len(mapping_line) == 0 or (fold(result[0], 'os') == s and fold(result[0], 'ol') == l and fold(result[0], 'on') == nm)",
                  "len(mapping_line) != 0 or (len(result[0]) == 0 and result[1] == previous_source_column)"],
         loops=[loop], env=env, hints={'ghost_init': ['g = 0', 's = 0', 'l = 0', 'c = 0', 'nm = 0']})
-    return [c]
+    return [c] + build_mappings(module)
+
+
+def build_mappings(module):
+    """normalize_mappings: the lines are normalised one by one, in order, each started with the carry the previous one
+    returned (the first with `column`); the result has one entry per line: what normalize_mapping_line returned for it."""
+    from vf.pyvc.sym import SOpaque
+    LINE_T = Opaque('MappingLine')
+    IN = z3.Function('input_line', z3.IntSort(), LINE_T.sort())
+    rec = {}
+
+    def reset():
+        rec.clear()
+        rec['log'] = []
+
+    class Lines(object):
+        def make(self, name):
+            return PAbsSeq(name, kinds=(1,), width=1, elem=lambda i, kind: SOpaque(IN(i), LINE_T))
+
+        def __repr__(self):
+            return 'Lines'
+
+    def nml(e, a, k):
+        out = SOpaque(z3.FreshConst(LINE_T.sort(), 'normalised_line'), LINE_T)
+        carry = SInt(z3.FreshConst(z3.IntSort(), 'carry'))
+        rec['log'].append((list(a), dict(k), out, carry))
+        return (out, carry)
+
+    def last_call(e):
+        return rec['log'][-1] if rec['log'] else None
+    env = {'__reset__': reset, 'normalize_mapping_line': PExt('normalize_mapping_line', nml),
+           'calls': Helper(lambda e: len(rec['log'])),
+           'line_arg': Helper(lambda e: last_call(e)[0][0]), 'carry_arg': Helper(lambda e: last_call(e)[0][1] if len(last_call(e)[0]) > 1 else last_call(e)[1].get('previous_source_column', 0)),
+           'nargs': Helper(lambda e: len(last_call(e)[0]) + len(last_call(e)[1])),
+           'returned_line': Helper(lambda e: last_call(e)[2]), 'returned_carry': Helper(lambda e: last_call(e)[3])}
+    step = ['''
+assert calls() == 1 and nargs() == 2, 'one normalisation per line'
+assert line_arg() is ml, 'of this line'
+assert carry_arg() == _c0, 'started with the carry of the line before (the given column for the first)'
+assert result[-1] is returned_line(), 'its result is the entry for this line'
+assert column == returned_carry(), 'and its carry is handed on'
+''']
+    cs = []
+    for given in (True, False):
+        params = {'mappings': Lines()}
+        if given:
+            params['column'] = Int
+        # without a column the first line starts at 0 (a consumer of a fresh map is 0 columns behind)
+        loop = Loop(inv=['len(result) == _k'] + ([] if given else ['implies(_k == 0, column == 0)']),
+                    types={'result': FoldSpec(kinds=(), width=0, folds={}), 'column': Int, '_c0': Int},
+                    ghost_begin=['_c0 = column'], ghost_step=step, index='_k')
+        cs.append(Contract(MODULE + ':normalize_mappings', params=params, ensures=['len(result) == len(mappings)'], loops=[loop], env=env,
+                           hints={'ghost_init': ['_c0 = 0']}, notes='column %s' % ('given' if given else 'defaulted')))
+    return cs
